@@ -1,3 +1,4 @@
+import CircBuf.Lemmas.Tie.Live
 import CircBuf.Lemmas.Tie.PushPop
 import CircBuf.Lemmas.Tie.Remove
 import CircBuf.Lemmas.Tie.Swap
@@ -22,6 +23,7 @@ maybe theorem C04_push_back_src (x : Elem) (s1 s2 : Sys) (h1 : Inv s1.buf) (h2 :
       Inv b1 ∧ Inv b2 ∧ abs b1 = abs b2 ∧ b1.cap = b2.cap := by
   first
   | (rw [tie_push_back _ s1 h1 (nd_pushBack _ s1 h1), tie_push_back _ s2 h2 (nd_pushBack _ s2 h2)]; exact C04_push_back x s1 s2 h1 h2 hcap habs)
+  | (exact LiveEq.ex2 (ltie_push_back _ s1 h1 (nd_pushBack _ s1 h1)) (ltie_push_back _ s2 h2 (nd_pushBack _ s2 h2)) (C04_push_back x s1 s2 h1 h2 hcap habs))
 
 maybe theorem C04_push_front_src (x : Elem) (s1 s2 : Sys) (h1 : Inv s1.buf) (h2 : Inv s2.buf)
     (hcap : s1.buf.cap = s2.buf.cap) (habs : abs s1.buf = abs s2.buf) :
@@ -30,6 +32,7 @@ maybe theorem C04_push_front_src (x : Elem) (s1 s2 : Sys) (h1 : Inv s1.buf) (h2 
       Inv b1 ∧ Inv b2 ∧ abs b1 = abs b2 ∧ b1.cap = b2.cap := by
   first
   | (rw [tie_push_front _ s1 h1 (nd_pushFront _ s1 h1), tie_push_front _ s2 h2 (nd_pushFront _ s2 h2)]; exact C04_push_front x s1 s2 h1 h2 hcap habs)
+  | (exact LiveEq.ex2 (ltie_push_front _ s1 h1 (nd_pushFront _ s1 h1)) (ltie_push_front _ s2 h2 (nd_pushFront _ s2 h2)) (C04_push_front x s1 s2 h1 h2 hcap habs))
 
 maybe theorem C04_pop_back_src (s1 s2 : Sys) (h1 : Inv s1.buf) (h2 : Inv s2.buf)
     (hcap : s1.buf.cap = s2.buf.cap) (habs : abs s1.buf = abs s2.buf) :
@@ -37,6 +40,7 @@ maybe theorem C04_pop_back_src (s1 s2 : Sys) (h1 : Inv s1.buf) (h2 : Inv s2.buf)
       Inv b1 ∧ Inv b2 ∧ abs b1 = abs b2 ∧ b1.cap = b2.cap := by
   first
   | (rw [tie_pop_back s1 h1 (nd_popBack s1 h1), tie_pop_back s2 h2 (nd_popBack s2 h2)]; exact C04_pop_back s1 s2 h1 h2 hcap habs)
+  | (exact LiveEq.ex2 (ltie_pop_back s1 h1 (nd_popBack s1 h1)) (ltie_pop_back s2 h2 (nd_popBack s2 h2)) (C04_pop_back s1 s2 h1 h2 hcap habs))
 
 maybe theorem C04_pop_front_src (s1 s2 : Sys) (h1 : Inv s1.buf) (h2 : Inv s2.buf)
     (hcap : s1.buf.cap = s2.buf.cap) (habs : abs s1.buf = abs s2.buf) :
@@ -44,6 +48,7 @@ maybe theorem C04_pop_front_src (s1 s2 : Sys) (h1 : Inv s1.buf) (h2 : Inv s2.buf
       Inv b1 ∧ Inv b2 ∧ abs b1 = abs b2 ∧ b1.cap = b2.cap := by
   first
   | (rw [tie_pop_front s1 h1 (nd_popFront s1 h1), tie_pop_front s2 h2 (nd_popFront s2 h2)]; exact C04_pop_front s1 s2 h1 h2 hcap habs)
+  | (exact LiveEq.ex2 (ltie_pop_front s1 h1 (nd_popFront s1 h1)) (ltie_pop_front s2 h2 (nd_popFront s2 h2)) (C04_pop_front s1 s2 h1 h2 hcap habs))
 
 maybe theorem C04_swap_remove_back_src (i : Nat) (s1 s2 : Sys) (h1 : Inv s1.buf) (h2 : Inv s2.buf)
     (hcap : s1.buf.cap = s2.buf.cap) (habs : abs s1.buf = abs s2.buf) :
@@ -52,6 +57,7 @@ maybe theorem C04_swap_remove_back_src (i : Nat) (s1 s2 : Sys) (h1 : Inv s1.buf)
       Inv b1 ∧ Inv b2 ∧ abs b1 = abs b2 ∧ b1.cap = b2.cap := by
   first
   | (rw [tie_swap_remove_back _ s1 h1 (nd_swapRemoveBack _ s1 h1), tie_swap_remove_back _ s2 h2 (nd_swapRemoveBack _ s2 h2)]; exact C04_swap_remove_back i s1 s2 h1 h2 hcap habs)
+  | (exact LiveEq.ex2 (ltie_swap_remove_back _ s1 h1 (nd_swapRemoveBack _ s1 h1)) (ltie_swap_remove_back _ s2 h2 (nd_swapRemoveBack _ s2 h2)) (C04_swap_remove_back i s1 s2 h1 h2 hcap habs))
 
 maybe theorem C04_remove_src (i : Nat) (s1 s2 : Sys) (h1 : Inv s1.buf) (h2 : Inv s2.buf)
     (hcap : s1.buf.cap = s2.buf.cap) (habs : abs s1.buf = abs s2.buf) :
@@ -59,5 +65,6 @@ maybe theorem C04_remove_src (i : Nat) (s1 s2 : Sys) (h1 : Inv s1.buf) (h2 : Inv
       Inv b1 ∧ Inv b2 ∧ abs b1 = abs b2 ∧ b1.cap = b2.cap := by
   first
   | (rw [tie_remove _ s1 h1 (nd_remove _ s1 h1), tie_remove _ s2 h2 (nd_remove _ s2 h2)]; exact C04_remove i s1 s2 h1 h2 hcap habs)
+  | (exact LiveEq.ex2 (ltie_remove _ s1 h1 (nd_remove _ s1 h1)) (ltie_remove _ s2 h2 (nd_remove _ s2 h2)) (C04_remove i s1 s2 h1 h2 hcap habs))
 
 end CircBuf
